@@ -216,7 +216,8 @@ impl HistSpec for FWorld {
 /// buffer once, or answers EINTR once.  Acknowledged records must still be whole and complete.
 fn fd_deviations(rep: &mut Report) {
     use crate::engine::fsfault::{self, Plan};
-    let w = FWorld { append: true, pre: Some("old\n"), nested: false, chunks: 3, sizes: vec![] };
+    for chunks in [1usize, 3] {
+    let w = FWorld { append: true, pre: Some("old\n"), nested: false, chunks, sizes: vec![] };
     let path = vec![FOp::Append(1025), FOp::Append(1), FOp::Append(2500), FOp::Append(700)];
     let run = |short: Vec<(usize, usize)>, fail: Vec<(usize, i32)>| -> (Result<(), (String, String)>, usize) {
         fsfault::begin(&crate::engine::sandbox::scratch_root(), Plan { fail, snapshots: false, kinds: vec!["write"], short });
@@ -228,7 +229,7 @@ fn fd_deviations(rep: &mut Report) {
     let (r0, n) = run(vec![], vec![]);
     if let Err((s, d)) = r0 {
         rep.violation(s, d, json!({"kind": "fd-deviation"}));
-        return;
+        continue;
     }
     let mut runs = 0u64;
     for k in 0..n {
@@ -245,6 +246,7 @@ fn fd_deviations(rep: &mut Report) {
     }
     rep.add("fd_deviation_runs", runs);
     rep.add("traces_validated_against_impl", runs);
+    }
 }
 
 pub fn fworlds(tier: Tier) -> Vec<FWorld> {
